@@ -42,6 +42,7 @@ class _Future(Future):
         super(_Future, self).__init__()
         self._me_done_callbacks = []
         self._me_lock = RLock()
+        self._me_cancelling = False
 
     def _me_invoke_callbacks(self):
         for callback in self._me_done_callbacks:
@@ -70,14 +71,35 @@ class _Future(Future):
                 return True
             if self.done():
                 return False
-            if not self._me_cancel():
-                return False
+            self._me_cancelling = True
+            try:
+                if not self._me_cancel():
+                    return False
+            finally:
+                self._me_cancelling = False
             out = super(_Future, self).cancel()
             if out:
                 self.set_running_or_notify_cancel()
         if out:
             self._me_invoke_callbacks()
         return out
+
+    def _me_delegate_cancelled(self):
+        # The future we depend on has been cancelled by someone other than us
+        # (e.g. a timeout applied to it, or its executor shutting down).
+        # It will never produce an outcome, so we end up cancelled as well
+        # rather than pending forever.
+        with self._me_lock:
+            if self.done() or self._me_cancelling:
+                # Already finished; or we are being called from within our
+                # own cancel(), which will complete the cancellation itself
+                # (and run callbacks only after releasing our lock).
+                return
+            out = super(_Future, self).cancel()
+            if out:
+                self.set_running_or_notify_cancel()
+        if out:
+            self._me_invoke_callbacks()
 
     def _me_cancel(self):
         raise NotImplementedError(
